@@ -90,9 +90,12 @@ func RunNodeHistory(h NodeHistory, o Oracle, binary string) (*Stats, *refmodel.L
 			}
 			if s.Op == "crash" {
 				k++
-				if s.Pos == "before" {
+				switch s.Pos {
+				case "before":
 					plan.KillBefore = k
-				} else {
+				case "fail":
+					plan.FailAt = k
+				default:
 					plan.KillAfter = k
 				}
 				break
@@ -215,14 +218,14 @@ func RunNodeHistory(h NodeHistory, o Oracle, binary string) (*Stats, *refmodel.L
 			res, err := n.Add(evs(s.Events), s.Single && len(s.Events) == 1)
 			if err != nil {
 				d, _ := err.(*Death)
-				if s.Op == "crash" && d != nil && d.Signal == "killed" && !d.Timeout {
+				if s.Op == "crash" && d != nil && !d.Timeout && (d.Signal == "killed" || s.Pos == "fail") {
 					// the planned crash point was reached
 					st.Crashes++
 					st.CrashPoints = append(st.CrashPoints, fmt.Sprintf("step %d %s store write (bulk of %d)", si, s.Pos, len(s.Events)))
 					pending = append(pending, s.Events)
 					pendingReplay = 1
 					replayWrites = 0
-					if s.Pos == "before" {
+					if s.Pos == "before" || s.Pos == "fail" {
 						replayWrites = 1
 					}
 					x = nil
@@ -242,6 +245,39 @@ func RunNodeHistory(h NodeHistory, o Oracle, binary string) (*Stats, *refmodel.L
 					return st, m, fmt.Errorf("step %d (%s): the restarted node died: %v", si, s.Op, err)
 				}
 				return st, m, unsettled("node died during step %d (%s): %v", si, s.Op, err)
+			}
+			if s.Op == "crash" && s.Pos == "fail" && res.Err != "" {
+				// the store refused the write and the node chose to survive and report the error:
+				// the event is not accepted, and the node must not have consumed its versions
+				time.Sleep(150 * time.Millisecond) // a node that gives up does so on its FSM goroutine, a moment after answering
+				stt, serr := n.State()
+				if d, ok := serr.(*Death); ok && !d.Timeout {
+					// the node did not survive after all: same as a crash before the write
+					st.Crashes++
+					st.CrashPoints = append(st.CrashPoints, fmt.Sprintf("step %d store write refused (bulk of %d), node gave up", si, len(s.Events)))
+					pending = append(pending, s.Events)
+					pendingReplay, replayWrites = 1, 1
+					x = nil
+					if err := open(si + 1); err != nil {
+						return st, m, err
+					}
+					if err := check(); err != nil {
+						if o.Recovery {
+							return st, m, fmt.Errorf("after the refused store write of step %d and restart: %v", si, err)
+						}
+						return st, m, err
+					}
+					continue
+				}
+				if serr != nil {
+					return st, m, unsettled("state after a refused store write: %v", serr)
+				}
+				st.Crashes++
+				st.CrashPoints = append(st.CrashPoints, fmt.Sprintf("step %d store write refused (bulk of %d), node survived", si, len(s.Events)))
+				if stt.BalloonVersion != uint64(m.Len()) && (o.Dense || o.Recovery) {
+					return st, m, fmt.Errorf("step %d: the store refused the write of an insertion of %d event(s) (injected I/O error); the node answered %q and keeps serving with its version counter at %d although only %d events were accepted: the refused events' versions are consumed and will be skipped", si, len(s.Events), res.Err, stt.BalloonVersion, m.Len())
+				}
+				continue
 			}
 			if s.Op == "crash" {
 				return st, m, unsettled("planned crash point of step %d was not reached", si)
